@@ -439,15 +439,23 @@ def extract_fields():
                 else:
                     fname, ftype = "0", " ".join(f)
                 rows.append((name, fname, ftype))
-    # unsafe impl Send / Sync lines
-    tt = [t for (_, t) in st]
+    # unsafe impl Send / Sync lines: of EVERY source file of the crate (storage.rs first, then the
+    # others in path order), so that a manual auto-trait impl added anywhere is in the table
     impls = []
-    for i in range(len(tt) - 6):
-        if tt[i] == "unsafe" and tt[i + 1] == "impl":
-            j = i
-            while tt[j] != "{":
-                j += 1
-            impls.append(" ".join(tt[i:j]))
+    srcs = []
+    for root, _, fs in os.walk(os.path.join(REPO, "src")):
+        for f in fs:
+            if f.endswith(".rs"):
+                srcs.append(os.path.relpath(os.path.join(root, f), REPO))
+    srcs.sort(key=lambda p_: (p_ != "src/archetype/storage.rs", p_))
+    for sp in srcs:
+        tt = [t for (_, t) in (st if sp == "src/archetype/storage.rs" else tokenize(read(sp)))]
+        for i in range(len(tt) - 3):
+            if tt[i] == "unsafe" and tt[i + 1] == "impl":
+                j = i
+                while tt[j] != "{":
+                    j += 1
+                impls.append(" ".join(tt[i:j]))
     if not any(r[0] == "$name" for r in rows) or not impls:
         raise ExtractError("storage struct fields / unsafe impls not recognised")
     global _FIELD_ROWS
